@@ -118,53 +118,36 @@ impl Path {
                         first_point,
                     );
                 }
-                self.first_point = None;
+                // as when filling, the subpath's start becomes the current point
+                self.current_point = self.first_point;
             }
 
-            // to determine containment we just need to count crossing of ray from (x, y) going to infinity
+            // to determine containment we compute the winding number of the path around (x, y)
+            // by counting the edges that cross the ray from (x, y) towards +x
             fn add_edge(&mut self, p1: Point, p2: Point) {
                 let (x1, y1) = (p1.x, p1.y);
                 let (x2, y2) = (p2.x, p2.y);
 
-                let dir = if y1 < y2 { -1 } else { 1 };
-
-                // entirely to the right
-                if x1 > self.x && x2 > self.x {
-                    return
-                }
-
-                // entirely above
-                if y1 > self.y && y2 > self.y {
-                    return
-                }
-
-                // entirely below
-                if y1 < self.y && y2 < self.y {
-                    return
-                }
-
-                // entirely to the left
-                if x1 < self.x && x2 < self.x {
-                    if y1 > self.y && y2 < self.y {
-                        self.count += 1;
-                        return;
-                    }
-                    if y2 > self.y && y1 < self.y {
-                        self.count -= 1;
-                        return;
-                    }
-                }
-
-                let dx = x2 - x1;
-                let dy = y2 - y1;
-
                 // cross product/perp dot product lets us know which side of the line we're on
-                let cross = dx * (self.y - y1) - dy * (self.x - x1);
+                let cross = (x2 - x1) * (self.y - y1) - (y2 - y1) * (self.x - x1);
 
                 if cross == 0. {
-                    self.on_edge = true;
-                } else if (cross > 0. && dir > 0) || (cross < 0. && dir < 0) {
-                    self.count += dir;
+                    // we're on the line through the edge; on the edge itself if we're also within its extent
+                    if self.x >= x1.min(x2) && self.x <= x1.max(x2) &&
+                       self.y >= y1.min(y2) && self.y <= y1.max(y2) {
+                        self.on_edge = true;
+                    }
+                    return;
+                }
+
+                // treat each edge as half open in y so that a ray passing through
+                // a vertex counts the two edges meeting there exactly once
+                if y1 <= self.y {
+                    if y2 > self.y && cross > 0. {
+                        self.count += 1;
+                    }
+                } else if y2 <= self.y && cross < 0. {
+                    self.count -= 1;
                 }
             }
         }
